@@ -1,6 +1,98 @@
-//! C14 — implementation side of the correspondence (stub).
+//! C14 — sequential-consistency tester: implementation side of the correspondence + oracle inputs.
+//! Same generators as C08, run through BOTH testers (model: `sc-run`, `lin-run`; oracle: brute-force
+//! definition check for each verdict and returned serialization, inclusion lin ⇒ sc), plus
+//! clone-and-extend: a tester is cloned mid-history, original and clone are extended differently and
+//! each is compared with the model; the original's observable content must not move when the clone is
+//! extended and vice versa.
 use srh::out::*;
+use srh::rng::Rng;
+use srh::sem_util::*;
+use stateright::semantics::register::Register;
+use stateright::semantics::write_once_register::WORegister;
+use stateright::semantics::{LinearizabilityTester, SequentialConsistencyTester};
+use std::fmt::Debug;
+
+/// split a history at a random point; extend original with the real tail, the clone with another tail
+fn fork_case<O>(out: &mut Out, r: &mut Rng, init: &O)
+where
+    O: Wire,
+    O::Op: Clone + Debug,
+    O::Ret: Clone + Debug + PartialEq,
+{
+    let h = gen_history(r, init, 4, 9, 1, 2);
+    let k = r.below(h.len() + 1);
+    let (pre, ext_a) = h.split_at(k);
+    let h2 = gen_history(r, init, 4, 6, 1, 2);
+    let ext_b: Vec<CallOf<O>> = if r.chance(1, 2) { h2 } else { h2.into_iter().rev().collect() };
+    let obj = init.obj_sx();
+    let full = |ext: &[CallOf<O>]| { let mut v = pre.to_vec(); v.extend_from_slice(ext); v };
+    // --- sequential consistency tester
+    {
+        let mut orig = SequentialConsistencyTester::new(init.clone());
+        let rs_pre = drive::<O, _>(&mut orig, pre);
+        let before = sc_summary(&orig).2;
+        let mut clone = orig.clone();
+        let rs_b = drive::<O, _>(&mut clone, &ext_b);
+        let mid = sc_summary(&orig).2;
+        if mid != before { out.v("value-semantics", &format!("sc: extending a clone changed the original: {} pre={} extB={}", obj, calls_sx::<O>(pre), calls_sx::<O>(&ext_b))); }
+        let clone_after_b = sc_summary(&clone).2;
+        let rs_a = drive::<O, _>(&mut orig, ext_a);
+        let clone_later = sc_summary(&clone).2;
+        if clone_later != clone_after_b { out.v("value-semantics", &format!("sc: extending the original changed the clone: {} pre={} extA={}", obj, calls_sx::<O>(pre), calls_sx::<O>(ext_a))); }
+        let orig_after = sc_summary(&orig).2;
+        let j = |a: &[String], b: &[String]| { let mut v = a.to_vec(); v.extend_from_slice(b); v.join(" | ") };
+        out.m(&format!("sc-run n {} {}", obj, calls_sx::<O>(pre)), &format!("{} ;; {}", rs_pre.join(" | "), before));
+        out.m(&format!("sc-run n {} {}", obj, calls_sx::<O>(&full(ext_a))), &format!("{} ;; {}", j(&rs_pre, &rs_a), orig_after));
+        out.m(&format!("sc-run n {} {}", obj, calls_sx::<O>(&full(&ext_b))), &format!("{} ;; {}", j(&rs_pre, &rs_b), clone_after_b));
+        out.stat("fork-sc");
+        if clone_after_b != orig_after { out.stat("fork-sc-diverged"); }
+    }
+    // --- linearizability tester
+    {
+        let mut orig = LinearizabilityTester::new(init.clone());
+        let rs_pre = drive::<O, _>(&mut orig, pre);
+        let before = lin_summary(&orig).2;
+        let mut clone = orig.clone();
+        let rs_b = drive::<O, _>(&mut clone, &ext_b);
+        let mid = lin_summary(&orig).2;
+        if mid != before { out.v("value-semantics", &format!("lin: extending a clone changed the original: {} pre={} extB={}", obj, calls_sx::<O>(pre), calls_sx::<O>(&ext_b))); }
+        let clone_after_b = lin_summary(&clone).2;
+        let rs_a = drive::<O, _>(&mut orig, ext_a);
+        let clone_later = lin_summary(&clone).2;
+        if clone_later != clone_after_b { out.v("value-semantics", &format!("lin: extending the original changed the clone: {} pre={} extA={}", obj, calls_sx::<O>(pre), calls_sx::<O>(ext_a))); }
+        let orig_after = lin_summary(&orig).2;
+        let j = |a: &[String], b: &[String]| { let mut v = a.to_vec(); v.extend_from_slice(b); v.join(" | ") };
+        out.m(&format!("lin-run n {} {}", obj, calls_sx::<O>(pre)), &format!("{} ;; {}", rs_pre.join(" | "), before));
+        out.m(&format!("lin-run n {} {}", obj, calls_sx::<O>(&full(ext_a))), &format!("{} ;; {}", j(&rs_pre, &rs_a), orig_after));
+        out.m(&format!("lin-run n {} {}", obj, calls_sx::<O>(&full(&ext_b))), &format!("{} ;; {}", j(&rs_pre, &rs_b), clone_after_b));
+        out.stat("fork-lin");
+        if clone_after_b != orig_after { out.stat("fork-lin-diverged"); }
+    }
+    out.stat(&format!("fork-split-at-{}", if k == 0 { "start" } else if k == h.len() { "end" } else { "middle" }));
+    out.distinct(&(9u8, obj, calls_sx::<O>(pre), calls_sx::<O>(ext_a), calls_sx::<O>(&ext_b)));
+}
+
 fn main() {
-    let out = Out::new();
+    quiet_panics();
+    let mut out = Out::new();
+    let mut r = Rng::new(seed());
+    let th = thorough();
+    let init = Register(0u8);
+    let (nth, len) = if th { (3, 5) } else { (3, 4) };
+    let mut n = 0u64;
+    exhaustive_register(nth, len, &mut |h| {
+        n += 1;
+        emit_history(&mut out, &init, h, 3, "x-");
+        if n % 5000 == 1 { out.sample(&format!("exhaustive: (reg 0) {}", calls_sx::<Register<u8>>(h))); }
+    });
+    seeded(&mut out, &mut r, arg_u64("--n", if th { 150_000 } else { 8_000 }) as usize, 3);
+    let forks = arg_u64("--forks", if th { 30_000 } else { 2_000 });
+    for i in 0..forks {
+        match i % 3 {
+            0 => { let v = r.below(3) as u8; fork_case(&mut out, &mut r, &Register(v)) }
+            1 => fork_case(&mut out, &mut r, &WORegister::<u8>(None)),
+            _ => fork_case(&mut out, &mut r, &Vec::<u8>::new()),
+        }
+    }
     out.finish();
 }
